@@ -128,6 +128,19 @@ def build_case(rng, tier):
         evs.append(("dstmt", st))
         evs.append(("tables", [name]))
     evs += [("flush",), ("tables", [name]), ("crash",), ("tables", [name])]
+    # after the restart the pages are re-read from disk: grow and shrink rows in the middle of a page,
+    # then read everything back again, also after another flush + restart
+    vcs = [c for c, t, _ in cols if t == "varchar"]
+    for _ in range(rng.randint(2, 4)):
+        if not vcs or serial[0] < 2:
+            break
+        c = rng.choice(vcs)
+        v = rng.choice(["", "q", "grown-" + "g" * rng.randint(10, 60), good(rng, "varchar")])
+        st = {"k": "update", "table": name, "sets": [(c, v)],
+              "where": [[(("col", "", "k"), "=", rng.randint(1, max(1, serial[0] - 1)))]]}
+        evs.append(("dstmt", st))
+        evs.append(("tables", [name]))
+    evs += [("flush",), ("crash",), ("tables", [name])]
     return evs, expect, cols
 
 
